@@ -836,3 +836,5 @@ end Agd.ResultCache
 #print axioms Agd.Tie.TrC12.rl_item_hit_iff_same_host
 #print axioms Agd.Tie.TrC12.hp_item_hit_iff_same_host
 #print axioms Agd.Tie.TrC12.rl_dnsresult_hit_or_compute
+#print axioms Agd.Tie.TrC12.custom_get_hit_iff_equal
+#print axioms Agd.Tie.TrC12.custom_get_tr
